@@ -248,6 +248,30 @@ def harness_panic(text):
     return None
 
 
+PANIC_LOC = re.compile(r"panicked at ([^\s:]+):(\d+)")
+FRAME_AT = re.compile(r"^\s+at ([^\s:]+):(\d+)", re.M)
+
+
+def child_panic_origin(text):
+    """Where a panic that killed a monitor child came from: ("harness", loc) if the panic site - or, for a panic raised
+    inside std, the innermost caller outside std in the backtrace (RUST_BACKTRACE=1) - lies in the monitor's own sources,
+    ("library", loc) if it lies in the repository's crates, None if it cannot be told."""
+    text = text or ""
+    m = PANIC_LOC.search(text)
+    if not m:
+        return None
+    locs = [(m.group(1), m.group(2))] + FRAME_AT.findall(text[m.end():])
+    for path, line in locs:
+        if path.startswith("/rustc/") or path.startswith("library/") or "/.cargo/registry/" in path or "/rustlib/" in path:
+            continue
+        if HARNESS_PATH.search(path):
+            return ("harness", "%s:%s" % (path, line))
+        if "crates/" in path:
+            return ("library", "%s:%s" % (path, line))
+        return None
+    return None
+
+
 class Result:
     """Accumulates lane results for one property run."""
 
